@@ -274,6 +274,25 @@ def gen_health_paths(k):
     return b.finish()
 
 
+def gen_zero_timeout(k):
+    """A deploy timeout of zero (or 1 ns): the wait is over at once - a target that is not healthy at that very instant fails the
+    deploy, however soon it would have answered; the old targets keep serving."""
+    b = Builder(random.Random(9200 + k))
+    b.meta["shape"] = {"mix": "zero_timeout", "k": k}
+    host, name = b"a.example.com", b"web"
+    b.deploy(name, host, [["ok"]], 5 * SEC, 500 * MS, async_=False)
+    b.request(host, "old")
+    b.sleep(0)
+    if k % 2 == 1:
+        b.deploy(name, host, [["ok"]], 5 * SEC, 500 * MS, async_=False, rollout=True)
+    scripts = [[["refused", "refused", "refused", "ok"]], [["status:503", "ok"], ["ok"]], [["slow:%d:200" % (300 * MS)]]][k % 3]
+    b.deploy(name, host, scripts, [0, 1][(k // 3) % 2], 500 * MS, rollout=k % 2 == 1)
+    for mk in [1, 500 * MS, 1 * SEC, 2 * SEC, 1 * SEC]:
+        b.sleep(mk)
+        b.request(host, "after-wait")
+    return b.finish()
+
+
 def gen_slow_log(k):
     """The log sink is slow and the level is Debug: every log call of the proxy takes a moment during which other goroutines
     run. A redeploy one of whose targets never answers must still fail and leave the old targets serving, however the log
@@ -493,6 +512,7 @@ def run(tier, seed):
         scen_meta += [gen_rollout_redeploy(random.Random(seed * 137 + k)) for k in range(6 if tier == "quick" else 60)]
         scen_meta += [gen_health_paths(k) for k in range(6)]
         scen_meta += [gen_slow_log(k) for k in range(6 if tier == "quick" else 24)]
+        scen_meta += [gen_zero_timeout(k) for k in range(6 if tier == "quick" else 12)]
         scenarios = [s for s, _ in scen_meta]
         metas = [m for _, m in scen_meta]
         rand = m5lb.random_scenarios(rnd, n_random, PROFILES, 8, 25)
